@@ -35,7 +35,7 @@ def run_dir(rid, kind, names, stray, ignore, strict, enc):
     tree = dc.Tree(kind, layout, order={"song": list(names)})
     rec = {"t": "dir", "id": rid, "listing": [cps(n) for n in names], "stray": [cps(n) for n in stray], "ignore": ignore,
            "strict": strict, "enc": enc or "", "st": "ok", "sm": dc.NONE, "ssc": dc.NONE, "simfilepath": dc.NONE,
-           "open": {"st": "", "file": dc.NONE}, "opendir": {"st": "", "file": dc.NONE, "path": dc.NONE}, "encodings": []}
+           "open": {"st": "", "file": dc.NONE}, "open2": {"st": "none"}, "opendir": {"st": "", "file": dc.NONE, "path": dc.NONE}, "encodings": []}
     try:
         d = tree.path("song")
         kw = {"strict": strict}
@@ -55,6 +55,12 @@ def run_dir(rid, kind, names, stray, ignore, strict, enc):
             except Exception as e:  # noqa
                 rec["open"] = {"st": type(e).__name__, "file": dc.n_(dc.base(tree, tree.opened[-1][0]) if tree.opened else None)}
             rec["encodings"] = [e or "" for _, m, e in tree.opened if enc]
+            # the same object again with the opposite strictness: options apply per call, nothing sticks
+            try:
+                sd.open(strict=not strict)
+                rec["open2"] = {"st": "ok"}
+            except Exception as e:  # noqa
+                rec["open2"] = {"st": type(e).__name__}
         except Exception as e:  # noqa
             rec["st"] = type(e).__name__
         tree.opened.clear()
